@@ -311,9 +311,11 @@ macro_rules! frame_types {
         $m!("u8x2", [u8; 2]);
         $m!("I24x1", [I24; 1]);
         $m!("u32x4", [u32; 4]);
+        // wider than the 32 channels the crate documentation speaks of: [S; N] is a Frame for every N
+        $m!("i16x40", [i16; 40]);
     };
 }
-const FNAMES: [&str; 6] = ["f64", "f32x2", "i16x3", "u8x2", "I24x1", "u32x4"];
+const FNAMES: [&str; 7] = ["f64", "f32x2", "i16x3", "u8x2", "I24x1", "u32x4", "i16x40"];
 
 fn run_any(rep: &mut Report, fname: &str, node: &Node, lens: &[Option<u64>], extra: u64) -> bool {
     let mut out = true;
@@ -375,6 +377,56 @@ fn clone_conformance(rep: &mut Report, seed: u64) {
     n += checks::cloneconf::check_clone_state("from_interleaved_samples", "kind=clone", mk2, |s, _i| (s.next(), s.is_exhausted()), rep, &mut rng, 24, 12, 8);
     rep.eval(n);
     rep.hit_n("clone_conformance_scripts", n);
+}
+
+/// interleaved-sample output of frames with very many channels (33, 300, 65 537): exactly
+/// frames x channels samples in channel order, then None - by next_sample() and by the iterator
+fn wide_interleaved<const N: usize>(rep: &mut Report)
+where
+    [i16; N]: Frame<Sample = i16>,
+{
+    let case = format!("kind=wide;ch={}", N);
+    let r = vmon::catch(|| -> Result<(), String> {
+        let frames: Vec<[i16; N]> = (0..3usize).map(|k| core::array::from_fn(|c| ((k * N + c) % 30_011) as i16 + 1)).collect();
+        for via_iter in [false, true] {
+            let mut s = signal::from_iter(frames.clone()).into_interleaved_samples();
+            let mut n = 0usize;
+            let limit = 3 * N + 5;
+            if via_iter {
+                let mut it = s.into_iter();
+                while let Some(x) = it.next() {
+                    if n >= 3 * N || x != ((n % 30_011) as i16 + 1) {
+                        return Err(format!("iterator: sample {} = {}, expected {}", n, x, if n < 3 * N { ((n % 30_011) as i16 + 1).to_string() } else { "None".into() }));
+                    }
+                    n += 1;
+                    if n > limit {
+                        break;
+                    }
+                }
+            } else {
+                while let Some(x) = s.next_sample() {
+                    if n >= 3 * N || x != ((n % 30_011) as i16 + 1) {
+                        return Err(format!("next_sample: sample {} = {}, expected {}", n, x, if n < 3 * N { ((n % 30_011) as i16 + 1).to_string() } else { "None".into() }));
+                    }
+                    n += 1;
+                    if n > limit {
+                        break;
+                    }
+                }
+            }
+            if n != 3 * N {
+                return Err(format!("{} samples delivered, expected 3 frames x {} channels = {}", n, N, 3 * N));
+            }
+        }
+        Ok(())
+    });
+    match r {
+        Ok(Ok(())) => {}
+        Ok(Err(d)) => rep.violation("into_interleaved_samples|wide_frames", format!("{} channels: {}", N, d), case),
+        Err(m) => rep.violation("into_interleaved_samples|wide_frames|panic", format!("{} channels: {}", N, m), case),
+    }
+    ev(6 * N as u64);
+    rep.hit("interleaved_output_of_frames_wider_than_32_channels");
 }
 
 /// take(n) for n around the integer-width boundaries: len() / size_hint() report n - k after k
@@ -444,6 +496,10 @@ fn main() {
             "from_iter" => check_from_iter(&mut rep, m["len"].parse().unwrap(), m["revive"] == "true", m["extra"].parse().unwrap()),
             "lift" => check_lift(&mut rep, m["len"].parse().unwrap()),
             "hugetake" => huge_take(&mut rep),
+            "wide" => {
+                wide_interleaved::<33>(&mut rep);
+                wide_interleaved::<300>(&mut rep);
+            }
             _ => {
                 let (l, rv, ex): (usize, bool, usize) = (m["len"].parse().unwrap(), m["revive"] == "true", m["extra"].parse().unwrap());
                 match m["ch"].as_str() {
@@ -467,6 +523,22 @@ fn main() {
 
     rep.oblige("clone_conformance_scripts", 1);
     clone_conformance(&mut rep, cli.seed);
+    rep.oblige("interleaved_output_of_frames_wider_than_32_channels", 3);
+    wide_interleaved::<33>(&mut rep);
+    wide_interleaved::<300>(&mut rep);
+    // 65 537 channels (128 KiB frames by value): on a thread with a roomy stack
+    {
+        let mut sub = Report::new("C05", "w");
+        let sub = std::thread::Builder::new().stack_size(64 << 20).spawn(move || {
+            wide_interleaved::<65_537>(&mut sub);
+            flush(&mut sub);
+            sub
+        }).unwrap().join();
+        match sub {
+            Ok(r) => rep.merge(r),
+            Err(_) => rep.violation("into_interleaved_samples|wide_frames|panic", "65 537 channels: the worker thread died".to_string(), "kind=wide;ch=65537".to_string()),
+        }
+    }
     rep.oblige("take_n_at_least_2_pow_32", 1);
     huge_take(&mut rep);
 
@@ -548,7 +620,7 @@ fn main() {
         let mut rng = Rng::derive(cli.seed, &[5, i]);
         let (node, nl) = random_bounded_tree(&mut rng, depth, 5);
         let lens: Vec<Option<u64>> = (0..nl).map(|_| if rng.chance(1, 5) { None } else { Some(rng.below(24)) }).collect();
-        let f = FNAMES[rng.usize_below(6)];
+        let f = FNAMES[rng.usize_below(7)];
         note_obligations(&node, &lens);
         run_any(rep, f, &node, &lens, 1 + rng.below(32));
         rep.nontrivial(vmon::hash_combine(vmon::hash_str(&node.encode()), vmon::hash_str(&lens_str(&lens))));
